@@ -81,3 +81,31 @@ Proof. vm_compute. repeat split; try reflexivity; discriminate. Qed.
 Lemma commit_happens :
   snd (step (exec w_init (OArm SP 60 5 :: w_staging)) (OComplete (SC 2) 0)) = StOk.
 Proof. vm_compute. reflexivity. Qed.
+
+(** Known class "VID statement": fail-safe armed over CASE on fabric 1, its ACL changed (staged),
+    then SetVIDVerificationStatement with no UpdateNOC pending stores the whole fabric - the staged
+    ACL with it - and the expiry reloads exactly that. *)
+Definition w_vid : list op :=
+  [OArm (SC 1) 60 5; OAclW (SC 1) 5 false; OVid (SC 1) 65522 false; OTimeout].
+
+Lemma vid_statement_stores_staged_change :
+  let st := exec w_init2 w_vid in
+  s_fs st = Idle /\
+  option_map f_acl (fget 1 (s_fabs st)) = Some [ADMIN; 5] /\
+  option_map f_acl (fget 1 (k_fabs (s_kv st))) = Some [ADMIN; 5] /\
+  option_map f_acl (fget 1 (s_fabs w_init2)) = Some [ADMIN] /\
+  safe_run w_init2 w_vid /\ ~ nothing_stored w_init2 w_vid /\
+  vid_leak (exec w_init2 [OArm (SC 1) 60 5; OAclW (SC 1) 5 false]) (OVid (SC 1) 65522 false) = true.
+Proof.
+  vm_compute. repeat split; try reflexivity.
+  intros (_ & _ & H & _). discriminate.
+Qed.
+
+(** the label under the same fail-safe is staged and rolled back together with the ACL *)
+Lemma label_is_staged_and_rolled_back :
+  let ops := [OAclW (SC 1) 5 false; OLabel (SC 1) 3 false] in
+  let st1 := fst (step w_init2 (OArm (SC 1) 60 5)) in
+  safe_run st1 ops /\ nothing_stored st1 ops /\
+  option_map f_label (fget 1 (s_fabs (exec st1 ops))) = Some 3 /\
+  fget 1 (s_fabs (exec st1 (ops ++ [OTimeout]))) = fget 1 (s_fabs w_init2).
+Proof. vm_compute. repeat split; reflexivity. Qed.
